@@ -61,7 +61,7 @@ CHECKS = {
     note="Trusted: the 60-line reference decoder in harness/enum/c09.go (itself checked against encoding/json). Longer strings are covered by the memorylessness argument, not enumerated.",
     technique="exhaustive input enumeration against a reference decoder", design="DESIGN.md section 3 C09", engine="enum"),
  "C10": dict(
-    text="Complete finite product: 15 entry points x serving logger (built-in before Refresh, sync, async, sync whose reference filters the event) x range below/at/above x 8 hook subsets x 4 contexts incl. nil (4800 cases): hook and lazy-generator call counts, the context they receive, the hook's time / string / fields in the recorded event and their order in the formatted line.",
+    text="Complete finite product: 15 entry points x serving logger (built-in before Refresh, sync, async, sync whose reference filters the event) x range below/at/above x 8 hook subsets x 4 contexts incl. nil: hook and lazy-generator call counts, the context they receive, the hook's time / string / fields in the recorded event and their order in the formatted line.",
     note="Trusted: counting hooks; async loggers are observed after Destroy.", technique="exhaustive enumeration of a finite product of configurations", design="DESIGN.md section 3 C10", engine="enum"),
  "C11": dict(
     text="Complete finite product over generated call sites: 16 entry-point forms (Record with skip 1 and 2) x 7 call shapes (plain, closure, deferred closure, goroutine, method value, generic helper, inlinable helper) x {default, fast} x {first, repeated call = cache hit} x enableCaller on/off set through Refresh, each case after a history of records logged with caller lookup on (recycled events, cached frames); oracle: runtime.Caller evaluated on the line directly above the call (inlining left on).",
@@ -82,6 +82,24 @@ CHECKS = {
     text="Exhaustive: the tag predicate on every string of length <=7 (thorough 8) over a 10-symbol alphabet against the documented language; all segment compositions of total length 2..38 into 1..5 segments with leading/trailing/doubled underscores; every byte 0..255 at each position of 3 valid tags; RegisterTag on every string of length <=4 (5) twice with the registry compared with a set model; app/biz/rpc helpers on a 7-part alphabet.",
     note="Trusted: the hand-written recogniser (cross-checked with a regular expression).", technique="exhaustive input enumeration against a reference recogniser + registry model", design="DESIGN.md section 3 C18", engine="enum"),
 }
+
+# additions of later rounds, appended to the texts above
+EXTRA = {
+ "C03": " Also 2 threads x 2 events on a rolling appender while the clock crosses up to two interval boundaries at any clock read (P<=1, thorough 2): every acknowledged line present exactly once, no foreign line.",
+ "C05": " (d) Destroy after a Refresh that failed half-way: for every file-touching logger kind (plus an async logger next to a second logger) file creations fail at any point of Refresh (F<=1, thorough 2); the Destroy that follows returns, the same configuration then loads, and what is logged through it is readable after its Destroy.",
+ "C06": " The directed operation sequences also submit events of TRACE / ERROR / PANIC / FATAL level (op 'F', sequences one shorter): the queue treats every level alike.",
+ "C07": " With context fields the slice handed to the layout is a prefix of a longer backing array (spare capacity) shared with a parent event that is formatted first: a layout that writes into the slices it is given corrupts the event under test.",
+ "C08": " Context-field slices share a backing array with spare capacity with a parent event formatted first (see C07).",
+ "C10": " Two further serving loggers (sync and async) fan out to the recorder plus one appender of every built-in type (Console, File, RollingFile, Discard): 7680 cases.",
+ "C11": " Cache populations: P distinct call sites (the 112 generated ones plus up to 1500 generated fillers) log once each and then each again, P on a ladder 1..1612, both modes. Under the scheduler: two goroutines logging from different statements (two records each, cold/warm cache, both modes, P<=2).",
+ "C13": " Further scenarios let a clock tick land exactly on a boundary, 1 ms after it or 45 minutes into the interval, and let file creations (only) fail.",
+ "C14": " Histories: (i) an appender quiet for longer than the maximum age while creations fail: the live file stays; (ii) one appender over up to 4 (thorough 5) half-interval clock steps (landing 1 ms or 15 min after the step) and 5 (6) writes, i.e. several cleanups racing the writes (P<=1): every removal in the filesystem log concerns an own rotated file that is not the one being written and whose modification time AT THAT MOMENT is older than the maximum age; at the end every own file older than (last rotation - max age) is gone and every line younger than the maximum age is readable.",
+ "C15": " Absolute reference for 'else its declared default': the declaration is read from the struct tags of the live plugin instances; every attribute/element the configuration does not mention holds its declared default (string/integer/bool kinds, default element type and its own defaults, optional elements nil) and no element instance is shared between plugins; every case starts after a history that configured a layout away from its defaults.",
+ "C18": " Histories: all strings of length <=5 evaluated ascending and then descending in one process (the second pass after every other string has been evaluated); composition groups are checked in one process and once more at the end; RegisterTag on every string of length <=3 (4) after every valid name of that length has been registered.",
+ "C20": " Further scenarios: interval boundaries with failing creations before the crash point; one (thorough two) write calls refused as a whole (EIO) before the crash point - only the refused call's own line is excused.",
+}
+for k, v in EXTRA.items():
+    CHECKS[k]["text"] += v
 
 m = {
  "version": 1,
